@@ -24,7 +24,9 @@ LEVEL_TEXT = ("Theorems in coq/Props/C06.v about the executable model coq/Link/L
               "for every block of a corpus (5 codecs + CIDv0 x sha2-256/sha2-512/sha3-256/identity/truncated digests): "
               "every single-bit flip, every truncation, appended bytes, substituted blocks, a read error at every offset, "
               "every 2-way and (small blocks: every) 3-way chunking, damaged bytes under their own link, open errors, "
-              "TrustedStorage, EMPTY reads (0, nil) before every byte position, after the genuine block before appended bytes "
+              "TrustedStorage, NodeReifier scenarios (the reifier records the *LinkSystem it is handed and loads corrupted / "
+              "substituted / truncated child blocks through it during and after the outer Load/LoadPlusRaw/Fill: every "
+              "such load must obey the same statement with the trust the USER declared), EMPTY reads (0, nil) before every byte position, after the genuine block before appended bytes "
               "and at true EOF, across Load/LoadRaw/LoadPlusRaw/Fill; store side: a sticky writer failure at every byte "
               "offset, a TRANSIENT failure of exactly write #k (and #k..#k+j) for every k, short writes at every write, "
               "opener and committer failures, with Store's link compared to ComputeLink's and the committed bytes to the "
@@ -39,6 +41,7 @@ TRUSTED = ["hash functions: arbitrary Section variables hasher_ok/hash (no law a
            "dag-json and json codecs: law consumes_all assumed (C06_default_registry_law); checked on every decode the harness ran; their real behaviour enters the model run as per-record tables",
            "decoders are prefix-deterministic and report a read error met at the end of the stream (definition stream_dec); exercised by a read error injected at every offset",
            "an empty read (0, nil) does not change what a decoder sees (the model's reader is the concatenation of its chunks): FALSE for refmt's byte reader on the pinned tree — known finding empty_read_mid_block, flagged by the oracle; exercised at every byte position",
+           "the NodeReifier is handed the link system the call was made on (definition reifier_handle); exercised by the reify records (TrustedStorage of the handle and every load through it are observed)",
            "go-cid / go-multihash / go-varint (Prefix, NewCidV0/V1, Encode, PutUvarint), io.TeeReader / io.MultiWriter / io.Copy: hand-modelled in coq/Link/LinkSys.v; tied by correspondence only",
            "refmt v0.90 CBOR encoder/tokenizer: hand-modelled in coq/Codec/Cbor.v; tied by correspondence only"]
 RULE = ("corpus of encoded blocks (fixed blocks per codec x hash, then generated values in each codec's domain, <= 64 bytes "
@@ -49,6 +52,8 @@ SEARCH_SEEDS = [1000004]
 
 
 def classify(fs):
+    if fs[1] == "reify":
+        return "reify:%s:trusted%s:%s:%s" % (fs[2], fs[3], fs[4], fs[-1].split(";")[0].split("/")[0])
     if fs[1] == "load":
         kind = fs[0].split(".")[1] if "." in fs[0] else fs[0]
         kind = kind.rstrip("0123456789")
@@ -59,7 +64,7 @@ def classify(fs):
 
 
 def nontrivial(fs):
-    return fs[1] in ("load", "store")
+    return fs[1] in ("load", "store", "reify")
 
 
 def input_key(fs):
